@@ -220,3 +220,32 @@ contract(C_ := "behave.configuration:Configuration.setup_tag_expression", props=
 from pyvc.contracts import macro as _macro
 _macro("cfg_tags", ["c"], "(c.config_tags if truthy(c.config_tags) else (c.default_tags if truthy(c.default_tags) else ''))")
 _macro("sel_tags", ["c", "t"], "(t if truthy(t) else (c.tags if truthy(c.tags) else cfg_tags(c)))")
+
+# C08: limits never change the stored literal: "-foo:3" stays the negated literal "-foo"
+oracle("colon_head", ["val"], "val:str")        # tag.split(':')[0]
+contract("abs:str.split_colon", trusted=True, pos_params=["self", "sep"], fresh_result="list:str",
+         ensures={"parts": "len(result) >= 1 and as_list(result, 'str')[0] == colon_head(self) and "
+                           "forall(lambda k: implies(0 <= k < len(result), has_kind(as_list(result, 'str')[k], 'str')))"},
+         doc="tag.split(':'): at least one part, the first one is the text before the first colon (A-lib)")
+contract("lib:int", trusted=True, pos_params=["x"], pure=True, result="int", raises=[Raises("ValueError", when=None)],
+         doc="int(text) (A-lib)")
+shape("TagExpression", ands="seq:seq:str", limits="dict:int")
+contract(V1 + "TagExpression.store_and_extract_limits", props=["C08"], params={"self": "ref:TagExpression", "tags": "seq:str"},
+         self_classes=["TagExpression"],
+         callsites={"tag.split": "abs:str.split_colon", "int": "lib:int"},
+         requires={"the-or-list-is-not-the-expression's-own-list": "tags is not self.ands"},
+         allow_raises=["Exception", "ValueError"],
+         modifies=["list(self.ands)", "dict(self.limits)", "lists", "dicts"],
+         loops=[Loop(invariant={
+             "each-tag-so-far-is-stored-as-written-up-to-its-first-colon-negation-sign-included":
+                 "len(tags_with_negation) == _i and forall(lambda k: implies(0 <= k < _i, tags_with_negation[k] == colon_head(_at(k))))",
+             "same": "_seq is tags", "fresh": "tags_with_negation is not tags and tags_with_negation is not self.ands"},
+             modifies=["list(tags_with_negation)", "dict(self.limits)"])],
+         ensures={
+             "one-and-group-is-added-for-a-non-empty-or-list":
+                 "len(self.ands) == old(len(self.ands)) + (1 if len(tags) > 0 else 0)",
+             "the-group-holds-every-tag-up-to-its-first-colon-with-its-negation-sign":
+                 "implies(len(tags) > 0, len(self.ands[len(self.ands) - 1]) == len(tags) and forall(lambda k: implies(0 <= k < len(tags), "
+                 "self.ands[len(self.ands) - 1][k] == colon_head(tags[k]))))",
+             "earlier-groups-kept": "forall(lambda k: implies(0 <= k < old(len(self.ands)), self.ands[k] is old(self.ands[k])))",
+         })
